@@ -554,7 +554,7 @@ fn emit_fn(cx: &mut Ctx, specs: &mut Specs, em: &mut Emitter, ex: &Extract, file
     let recv = f.sig.receiver().cloned();
     let mut_self = recv.as_ref().map(|r| r.reference.is_none() && r.mutability.is_some()).unwrap_or(false);
     let mut rw = Rw::new(cx, lifted, binders, name.clone());
-    rw.self_to_this = mut_self && !lifted;
+    rw.self_to_this = (mut_self && !lifted) || (fd.tr.is_some() && fd.im.is_none() && recv.is_some());
     rw.lift_prefix = { let p = match ex.opt("key") { Some(k) => k.replace("::", "__").replace('@', "_"), None => ex.path.rsplit('@').next().unwrap().replace("::", "__") }; let p: String = p.chars().map(|c| if c.is_ascii_alphanumeric() || c == '_' { c } else { '_' }).collect(); if lifted { format!("{}__async", p) } else { p } };
     rw.typed_ctors = specs.sections.keys().filter_map(|k| k.strip_prefix("sig ").map(|s| s.to_string())).collect();
     rw.typed_caps = specs.sections.keys().filter_map(|k| k.strip_prefix("captype ").map(|s| s.to_string())).collect();
@@ -607,7 +607,9 @@ fn emit_fn(cx: &mut Ctx, specs: &mut Specs, em: &mut Emitter, ex: &Extract, file
     if !lifted {
         if let Some(r) = &recv {
             let s = if r.reference.is_some() { if r.mutability.is_some() { "&mut self" } else { "&self" } } else { "self" };
-            params.push(s.to_string());
+            // S3: the default body of a trait method with a receiver is emitted as a free function over `this: &mut SelfT`
+            if fd.tr.is_some() && fd.im.is_none() { let t = if r.reference.is_some() { if r.mutability.is_some() { "this: &mut SelfT" } else { "this: &SelfT" } } else { "this: SelfT" }; params.push(t.to_string()); cx.fire("S3"); }
+            else { params.push(s.to_string()); }
         }
     }
     for (n, t) in &captured { let mut t = t.clone(); rewrite::map_type(&mut t, cx); params.push(format!("mut self_{}: {}", n, tidy(&t.to_token_stream().to_string()))); }
